@@ -276,7 +276,7 @@ class MiscProp(Prop):
             rep = ffi_call([q])
             out["implementation"] = rep
             want = ref_scrypt(bytes.fromhex(q["pw"]), bytes.fromhex(q["salt"]), q["n"], q["r"], q["p"], q["dklen"]).hex()
-            out["holds"] = rep[0].get("out") == want and rep[0].get("guard_ok") is True
+            out["holds"] = rep[0].get("out") == want and rep[0].get("guard_ok") is True and rep[0].get("rest_ok", True) is True
         elif isinstance(inp, dict) and inp.get("op"):
             return super().replay(ctx, payload)
         else:
@@ -325,8 +325,9 @@ class C07(MiscProp):
             "payload key recovered by the recipient = the stream block, 64/32/0 bytes consumed; the real CLI with "
             "KESTREL_VERIF_RANDOM must produce exactly what the library produces with the stream blocks injected. "
             "(b) production randomness (statistical observation): every operation repeated with IDENTICAL inputs "
-            "(>= 20, thorough 200 times): ephemeral keys, payload keys, salts, generated public keys pairwise distinct, "
-            "library and real CLI (encrypt, password encrypt, key generate, key change-pass). (c) nonce sequence: every "
+            "(library: 260, thorough 2000 times per operation, all in ONE driver process, i.e. > 1500 consecutive draws from one "
+            "generator state; real CLI: 20, thorough 200 processes per command): ephemeral keys, payload keys, salts, generated "
+            "public keys pairwise distinct, library and real CLI (encrypt, password encrypt, key generate, key change-pass). (c) nonce sequence: every "
             "record i of files with m chunks (chunk hooks, key files, password files) opens under counter i and under no "
             "other counter in 0..m+1 (also i+256, i+2^32). non-trivial = every case; distinct = distinct driver lines / runs")
     assumptions = ["hook-idle runs are a statistical observation of getrandom-backed output (distinctness of 32-byte values), not a proof of entropy",
@@ -564,7 +565,9 @@ class C07(MiscProp):
 
     # ---------------------------------------------------------------- (b) library
     def idle_library(self, ctx):
-        N = 200 if ctx.thorough() else 24
+        # all runs in ONE driver process: a generator that recycles its output after k draws shows up only when one
+        # process draws more than k values (260 default key_enc = 520 draws of 32 bytes, plus the other variants)
+        N = 2000 if ctx.thorough() else 260
         (s, spk), (r, rpk) = self.parties[0], self.parties[1]
         e = ctx.rbytes(32)
         epk = unhex(drv(ctx.bin, ["xpub %s" % hexs(e)])[0]["out"])
@@ -847,7 +850,9 @@ class C08(MiscProp):
             "key's public key, same view for all identities, no needle, model = run_key_enc_fresh on the same stream. CLI: real `encrypt` / `password encrypt` processes over a "
             "keyring with named entries (ASCII, spaces, non-ASCII), file and stdin input, with and without a fixed random stream: "
             "same checks plus the keyring names and every keyring public key as needles; also onto a pre-existing LONGER output file "
-            "whose text contains the keyring (names, public keys): the result must obey the exact length formula and contain no needle. non-trivial = all; distinct = distinct "
+            "whose text contains the keyring (names, public keys): the result must obey the exact length formula and contain no needle; "
+            "self-addressed (to == from) and two-party encryptions written to standard output (a pipe) and to -o: the output starts with the "
+            "magic, obeys the length formula and contains no needle. non-trivial = all; distinct = distinct "
             "driver lines / argv")
     assumptions = ["needle search is over exact encodings (raw, base64 variants, keyring encoding, hex); an AEAD output that happened to contain a 32-byte needle by chance has probability < 2^-200",
                    "names shorter than 10 bytes are not used as needles (they could occur by chance)",
@@ -856,7 +861,28 @@ class C08(MiscProp):
     def run(self, ctx):
         self.library(ctx)
         self.library_mixed(ctx)
+        self.fresh_ephemeral(ctx)
         self.cli_part(ctx)
+
+    def fresh_ephemeral(self, ctx):
+        """"a fresh ephemeral public key": default encryptions (nothing injected, production random source) repeated in ONE
+        process; bytes 4..36 pairwise distinct and never a party's key (statistical observation, as in C07)"""
+        N = 2000 if ctx.thorough() else 260
+        (s, spk), (r, rpk) = keypairs(ctx, 2)
+        line = "key_enc %s %s %s none none none %s - - -" % (hexs(s), hexs(spk), hexs(rpk), hexs(ctx.rbytes(3)))
+        res = drv(ctx.bin, ["setrand none"] + [line] * N)[1:]
+        inp = {"driver": "libdrv", "lines": ["setrand none", line], "repeat": N, "note": "statistical observation; all runs in one driver process"}
+        self.ran(ctx, "library-default-repeated", N)
+        files = [unhex(x.get("out", "-")) for x in res]
+        self.check(ctx, all(x.get("outcome") == "ok" for x in res) and all(len(f) == 132 + 32 + 3 for f in files), inp,
+                   "every run succeeds with 167 bytes", [x.get("outcome") for x in res if x.get("outcome") != "ok"][:3])
+        eph = [f[4:36] for f in files]
+        first_dup = next((i for i, e in enumerate(eph) if e in eph[:i]), None)
+        self.check(ctx, len(set(eph)) == len(eph), inp, "%d default encryptions in one process: the ephemeral public keys (bytes 4..36) are pairwise distinct" % N,
+                   "%d distinct; run %s repeats the key of run %s" % (len(set(eph)), first_dup, eph.index(eph[first_dup]) if first_dup is not None else None))
+        self.check(ctx, spk not in eph and rpk not in eph, inp, "bytes 4..36 are never a party's static public key", "static key used as ephemeral")
+        self.check(ctx, len(set(f[0:4] + b"".join(x[0:16] for x in records(f, 132)) for f in files)) == 1, inp,
+                   "apart from the ephemeral key the cleartext fields are identical in all runs", "different magic / record headers")
 
     def library_mixed(self, ctx):
         """half-injected ephemeral pairs: (Some e, None) and (None, Some epk).  noise.rs::init_x keeps an injected pair only
@@ -1082,6 +1108,21 @@ class C08(MiscProp):
                         jobs.append({"args": ["password", "encrypt", pf, "-o", o, "--env-pass"], "env": {"KESTREL_PASSWORD": "some other pw"}})
                         meta.append({"kind": "password-encrypt", "n": n, "mode": "preexisting-longer-output", "out": o, "P": P, "hdr": 36, "stdin": False,
                                      "group": None, "pw": "some other pw", "old_len": len(old)})
+            # self-addressed encryptions (to == from) and ordinary ones, written to STDOUT (a pipe) and to -o
+            for n in ([0, 1000, BIG + 1] if full else [0, 1000]):
+                P = ctx.rbytes(n)
+                pf = os.path.join(wd, "s_%d.bin" % n)
+                open(pf, "wb").write(P)
+                for (a, b) in ((0, 0), (2, 2), (0, 1)):
+                    for dest in ("stdout", "file"):
+                        o = os.path.join(wd, "self_%d_%d_%d.bin" % (n, a, b)) if dest == "file" else None
+                        jobs.append({"args": ["encrypt", pf, "-t", names[b], "-f", names[a], "-k", kr, "--env-pass"] + (["-o", o] if o else []),
+                                     "env": {"KESTREL_PASSWORD": pws[a]}})
+                        meta.append({"kind": "encrypt", "n": n, "from": a, "to": b, "mode": ("self-addressed" if a == b else "two-party") + "/to-" + dest,
+                                     "out": o, "P": P, "hdr": 132, "stdin": False, "group": None, "from_stdout": dest == "stdout"})
+                jobs.append({"args": ["password", "encrypt", pf, "--env-pass"], "env": {"KESTREL_PASSWORD": "pw to stdout"}})
+                meta.append({"kind": "password-encrypt", "n": n, "mode": "to-stdout", "out": None, "P": P, "hdr": 36, "stdin": False, "group": None,
+                             "pw": "pw to stdout", "from_stdout": True})
             results = cli_many(jobs)
             views = collections.defaultdict(set)
             decs = []
@@ -1091,9 +1132,15 @@ class C08(MiscProp):
                 if m.get("old_len"):
                     inp["output_file_before"] = "%d bytes: 'previous contents of the output file' + the keyring text, repeated" % m["old_len"]
                 self.ran(ctx, "cli/%s/%s%s" % (m["kind"], m["mode"], "/stdin" if m["stdin"] else ""))
-                F = open(m["out"], "rb").read() if os.path.exists(m["out"]) else None
+                if m.get("from_stdout"):
+                    F = so          # the encrypted file is everything the process wrote to its standard output
+                    inp["output"] = "standard output (a pipe)"
+                else:
+                    F = open(m["out"], "rb").read() if os.path.exists(m["out"]) else None
                 if not self.check(ctx, rc == 0 and F is not None, inp, "the CLI run succeeds and writes the file", "rc=%d %s" % (rc, se[-200:])):
                     continue
+                magic = PROLOGUE if m["hdr"] == 132 else PASS_MAGIC
+                self.check(ctx, F[:4] == magic, inp, "the output starts with the format magic " + magic.hex(), F[:24].hex() + " = " + repr(F[:24]))
                 v, recs = view_of(F, m["hdr"])
                 nrec = len(recs)
                 self.check(ctx, len(F) == m["hdr"] + 32 * nrec + m["n"] and sum(int.from_bytes(x[12:16], "big") for x in recs) == m["n"], inp,
@@ -1166,8 +1213,12 @@ class C11(MiscProp):
             "(encrypt: never more than 2*65536+32 bytes read ahead of what was written; decrypt: at most one record read between "
             "two writes). model side: I/O traces (every read/write size) of enc_chunks/dec_chunks at chunk sizes 1..4 under all "
             "read partitions compared with the model, look-ahead of the model's trace compared with the implementation's, and — "
-            "when Model/Monitors.v exists — the Coq monitors evaluated on the model's traces. non-trivial = all; distinct = "
-            "distinct driver lines")
+            "when Model/Monitors.v exists — the Coq monitors evaluated on the model's traces. process level: the real CLI binary fed "
+            "through a pipe that is kept open (named FIFO given as FILE, /dev/stdin as FILE, plain stdin; output to -o files and, as a "
+            "filter, to its stdout pipe; encrypt / decrypt, both modes): after 8 MiB and after 64 MiB (thorough 256 MiB; decrypt filters: "
+            "all but the last 100 kB) the output must have reached fed - pipe capacity - two chunks while the process still waits for "
+            "input, and VmRSS / VmHWM from /proc must not differ by 4 MiB between the two pauses; regular files of both sizes: ru_maxrss "
+            "within 8 MiB. non-trivial = all; distinct = distinct driver lines / argv")
     assumptions = ["heap usage is what passes through Rust's global allocator (requested sizes); stack frames are fixed-size in this code",
                    "the generator reader / counting sink / capped BufReader<File> in harness/libdrv/src/mem.rs stand for arbitrary Read / Write implementations",
                    "sizes above 4 GiB + 5 are not run; the constant bound is argued for all sizes by the model's trace shape"]
@@ -1221,11 +1272,26 @@ class C11(MiscProp):
         data, marks, out = job["data"], job["marks"], job["out"]
         res = {"marks": [], "rc": None, "stderr": ""}
         errf = tempfile.TemporaryFile()
+        to_stdout = out is None          # the process is a filter: its output is read from its stdout pipe and counted
         p = subprocess.Popen([vlib.CLIDRV] + job["argv"], env=cli_env(job["env"]),
                              stdin=(subprocess.PIPE if job["how"] == "stdin" else subprocess.DEVNULL),
-                             stdout=subprocess.DEVNULL, stderr=errf, start_new_session=True)
+                             stdout=(subprocess.PIPE if to_stdout else subprocess.DEVNULL), stderr=errf, start_new_session=True)
         dog = threading.Timer(120, p.kill)
         dog.start()
+        got = [0]
+        if to_stdout:
+            def pump():
+                fdo = p.stdout.fileno()
+                while True:
+                    try:
+                        b = os.read(fdo, 1 << 20)
+                    except OSError:
+                        break
+                    if not b:
+                        break
+                    got[0] += len(b)
+            rd = threading.Thread(target=pump, daemon=True)
+            rd.start()
         fd = None
         try:
             if job["how"] == "stdin":
@@ -1252,7 +1318,7 @@ class C11(MiscProp):
                     t0, size = time.time(), 0
                     while True:
                         try:
-                            size = os.path.getsize(out)
+                            size = got[0] if to_stdout else os.path.getsize(out)
                         except OSError:
                             size = 0
                         if size >= need or p.poll() is not None or time.time() - t0 > (1.0 if stalled else 30.0):
@@ -1284,6 +1350,10 @@ class C11(MiscProp):
             errf.seek(0)
             res["stderr"] += errf.read().decode("utf-8", "replace")[-300:]
             errf.close()
+        if to_stdout:
+            rd.join(timeout=20)
+            res["final_size"] = got[0]
+            return res
         try:
             res["final_size"] = os.path.getsize(out)
         except OSError:
@@ -1335,6 +1405,8 @@ class C11(MiscProp):
                 {"label": "encrypt /dev/stdin", "argv": ["encrypt", "/dev/stdin", "-o", P("o_devstdin_key.bin")] + keyargs,
                  "env": envs, "how": "stdin", "out": P("o_devstdin_key.bin"), "need": enc_need, "dir": "enc"},
             ]
+            feeds.append({"label": "password encrypt (stdin -> stdout)", "argv": ["password", "encrypt", "--env-pass"],
+                          "env": envp, "how": "stdin", "out": None, "need": enc_need, "dir": "enc"})
             for j in feeds:
                 j.update(data=data, marks=[LO, HI])
             files = []
@@ -1360,6 +1432,16 @@ class C11(MiscProp):
                     {"label": "password decrypt (stdin)", "argv": ["password", "decrypt", "-o", P("d_stdin_pass.bin"), "--env-pass"],
                      "env": envp, "how": "stdin", "out": P("d_stdin_pass.bin"), "need": dec_need, "dir": "dec", "data": ctp, "marks": dmarks(ctp)},
                 ]
+                # filters (no -o): the last 100 kB of the ciphertext are withheld at the second pause
+                fmarks = lambda ct: [LO, len(ct) - 100000]
+                feeds2 += [
+                    {"label": "password decrypt (stdin -> stdout)", "argv": ["password", "decrypt", "--env-pass"],
+                     "env": envp, "how": "stdin", "out": None, "need": dec_need, "dir": "dec", "data": ctp, "marks": fmarks(ctp)},
+                    {"label": "decrypt (stdin -> stdout)", "argv": ["decrypt", "-t", "stream-recipient", "-k", kr, "--env-pass"],
+                     "env": envr, "how": "stdin", "out": None, "need": dec_need, "dir": "dec", "data": ctk, "marks": fmarks(ctk)},
+                    {"label": "decrypt /dev/stdin -> stdout", "argv": ["decrypt", "/dev/stdin", "-t", "stream-recipient", "-k", kr, "--env-pass"],
+                     "env": envr, "how": "stdin", "out": None, "need": dec_need, "dir": "dec", "data": ctk, "marks": fmarks(ctk)},
+                ]
                 os.mkfifo(P("fifo_dec"))
                 feeds2.append({"label": "decrypt <FIFO>", "argv": ["decrypt", P("fifo_dec"), "-t", "stream-recipient", "-o", P("d_fifo_key.bin"), "-k", kr, "--env-pass"],
                                "env": envr, "how": "fifo", "fifo": P("fifo_dec"), "out": P("d_fifo_key.bin"), "need": dec_need, "dir": "dec", "data": ctk, "marks": dmarks(ctk)})
@@ -1383,9 +1465,9 @@ class C11(MiscProp):
                     continue
                 for m in res["marks"]:
                     self.check(ctx, m["output"] >= m["need"], inp,
-                               "incremental output: with %d bytes fed and the input STILL OPEN the output file reaches >= %d bytes "
+                               "incremental output: with %d bytes fed and the input STILL OPEN the output (file, or the stdout pipe of a filter) reaches >= %d bytes "
                                "(fed - pipe capacity - two chunks%s) within 30 s" % (m["written"], m["need"], "" if j["dir"] == "enc" else " - ciphertext overhead"),
-                               "output file has %d bytes (process %s)" % (m["output"], "alive" if m["alive"] else "exited"))
+                               "output has %d bytes (process %s)" % (m["output"], "alive" if m["alive"] else "exited"))
                 a, b = res["marks"][0], res["marks"][-1]
                 if a["rss"] and b["rss"]:
                     self.check(ctx, b["rss"] - a["rss"] < GROW and b["hwm"] - a["hwm"] < GROW, inp,
@@ -1653,7 +1735,9 @@ class C18(MiscProp):
             "extreme blocks; when Spec/Scrypt.v and Model/ScryptImpl.v exist also against both Gallina versions (N <= 64, r <= 2). "
             "C ABI: the cdylib built from the working tree called through ctypes with 0xA5 guard zones and a 0x5A-prefilled output "
             "buffer: output = the RFC value, guards intact, exactly dkLen bytes written, for requests with r != p, "
-            "|pw| != |salt|, pw != salt, dkLen in {1,31,32,33,64,200}. non-trivial = all; distinct = distinct requests")
+            "|pw| != |salt|, pw != salt, dkLen in {1,31,32,33,64,200}; passwords of 1..100 bytes ending in one / two NUL bytes (library and C ABI); in-place use "
+            "(the output region placed inside the salt buffer resp. the password buffer at several offsets and lengths: the value is that of the "
+            "ORIGINAL inputs, the rest of the aliased buffer unchanged). non-trivial = all; distinct = distinct requests")
     assumptions = ["OpenSSL's EVP scrypt (through Python's hashlib) is the reference RFC 7914 implementation",
                    "parameters outside the documented domain (N not a power of two or < 2, r = 0, p = 0, dkLen = 0) are not exercised",
                    "the C ABI check sees writes within 64 bytes before / after the output buffer; stray writes elsewhere are not observable"]
@@ -1718,6 +1802,12 @@ class C18(MiscProp):
         for (N, r, p, dk) in grid:
             pw, salt = ctx.rbytes(self.plen(ctx)), ctx.rbytes(self.plen(ctx))
             cases.append((pw, salt, N, r, p, dk))
+        # passwords around and above the 64-byte HMAC block, ending in a NUL byte and not (above 64 bytes the key is hashed
+        # first, so a dropped / added trailing NUL changes the result; up to 64 bytes zero padding hides it)
+        for ln in (63, 64, 65, 80, 100):
+            for last in (b"\x00", b"\x00\x00", b"z"):
+                pw = ctx.rbytes(ln - len(last)) + last
+                cases.append((pw, ctx.rbytes(rng.choice([0, 8, 32])), rng.choice([2, 16, 64]), rng.choice([1, 2]), rng.choice([1, 2]), rng.choice([16, 32, 33])))
         cases += [(b"", b"", 16, 1, 1, 64), (b"password", b"NaCl", 1024, 8, 16, 64), (b"pleaseletmein", b"SodiumChloride", 16384, 8, 1, 64),
                   (b"x" * 65, b"y" * 129, 4, 1, 1, 200), (b"\x00" * 64, b"\x00", 2, 1, 1, 1)]
         lines = ["scrypt %s %s %d %d %d %d" % (hexs(pw), hexs(salt), N, r, p, dk) for (pw, salt, N, r, p, dk) in cases]
@@ -1841,6 +1931,18 @@ class C18(MiscProp):
                  {"pw": "", "salt": "cc" * 9, "n": 8, "r": 2, "p": 3, "dklen": 33, "guard": 64},
                  {"pw": "dd" * 9, "salt": "", "n": 4, "r": 1, "p": 5, "dklen": 31, "guard": 64},
                  {"pw": "70617373776f7264", "salt": "4e61436c", "n": 1024, "r": 8, "p": 16, "dklen": 64, "guard": 64}]
+        # passwords ending in NUL (and salts), at and above the HMAC block size
+        for ln in (1, 8, 64, 65, 80, 100):
+            for last in ("00", "0000", "7a"):
+                pw = ctx.rbytes(ln - len(last) // 2).hex() + last
+                reqs.append({"pw": pw, "salt": ctx.rbytes(rng.choice([4, 65])).hex() + rng.choice(["", "00"]), "n": rng.choice([2, 16]), "r": 2, "p": 1,
+                             "dklen": rng.choice([16, 33]), "guard": 32})
+        # in-place use: the output region lies inside the salt / the password buffer; the result must be that of the ORIGINAL inputs
+        for which in ("salt", "pw"):
+            for (ln, off, dk) in ((32, 0, 32), (32, 0, 16), (16, 0, 64), (40, 8, 32), (64, 0, 64), (100, 36, 64), (5, 3, 1)):
+                src, other = ctx.rbytes(ln).hex(), ctx.rbytes(rng.choice([0, 9, 70])).hex()
+                reqs.append({"pw": src if which == "pw" else other, "salt": src if which == "salt" else other, "n": rng.choice([2, 16, 256]),
+                             "r": rng.choice([1, 3]), "p": 2, "dklen": dk, "guard": 32, "alias": which, "alias_off": off})
         outs = ffi_call([dict(r) for r in reqs])
         lib = drv(ctx.bin, ["scrypt %s %s %d %d %d %d" % (r["pw"] or "-", r["salt"] or "-", r["n"], r["r"], r["p"], r["dklen"]) for r in reqs])
         for r, o, l in zip(reqs, outs, lib):
@@ -1849,6 +1951,12 @@ class C18(MiscProp):
             want = ref_scrypt(bytes.fromhex(r["pw"]), bytes.fromhex(r["salt"]), r["n"], r["r"], r["p"], r["dklen"])
             self.check(ctx, o.get("out") == want.hex(), inp, "the C function writes the RFC 7914 value " + want.hex()[:128], json.dumps(o)[:500])
             self.check(ctx, o.get("guard_ok") is True, inp, "nothing outside the dkLen output bytes is written (guard zones intact)", json.dumps(o)[:300])
+            if r.get("alias"):
+                self.count(ctx, "ffi-output-aliases-%s" % r["alias"])
+                self.check(ctx, o.get("rest_ok") is True, inp, "in-place use: the bytes of the aliased %s buffer outside the output range are unchanged" % r["alias"],
+                           json.dumps(o)[:300])
+            if len(r["pw"]) >= 2 and r["pw"].endswith("00"):
+                self.count(ctx, "ffi-password-ends-in-NUL/len%s64" % ("<=" if len(r["pw"]) // 2 <= 64 else ">"))
             self.check(ctx, l.get("outcome") == "ok" and l.get("out") == o.get("out"), inp, "C ABI value = library value", "library: " + l["raw"][:200])
             # a swapped argument pair must give a different reference value, else the request could not expose the swap
             alt = ref_scrypt(bytes.fromhex(r["salt"]), bytes.fromhex(r["pw"]), r["n"], r["r"], r["p"], r["dklen"])
@@ -1905,6 +2013,8 @@ def z_translate(toks, keys):
     nid = 0
     ops, n_first, exact = [], 0, True
     for t in toks:
+        if t in ("x", "xl"):
+            continue            # only HOW the survivors are released (by unwinding): the model's drops are the same
         if t[0] == "n":
             b = ks[ki] if ki < len(ks) and ks[ki] is not None else bytes([1]) * 32
             if not (ki < len(ks) and ks[ki] is not None):
@@ -1965,7 +2075,9 @@ class C20(MiscProp):
             "the value inside the box), d<i> = drop; the containers still live at the end are dropped too): EVERY interleaving (every "
             "index choice, every prefix) of clones, clone_froms and drops with at most 2 (thorough 3) allocating operations, starting "
             "from one key (each constructor) and from two different keys of one kind, plus random histories of up to 12 operations over "
-            "several keys; the model has no clone_from: a PrivateKey clone_from is translated to OClone j; ODrop i with the container "
+            "several keys; the same histories with the surviving containers released by UNWINDING (x: a closure owning them panics; "
+            "xl: the library's own panic, PayloadKey::new on 31 bytes, with them live); keys whose 32 bytes XOR to zero for every "
+            "constructor (always, not by chance); the model has no clone_from: a PrivateKey clone_from is translated to OClone j; ODrop i with the container "
             "positions tracked (tools/props_misc.py::z_translate), a PayloadKey clone_from frees nothing; a global allocator records the bytes of each container's heap block at the moment dealloc is entered; oracle: "
             "every record is 32 zero bytes, one record per container, in release order; the journal is compared with "
             "Model/Zeroize.v (run true ops, observe) and must differ from the model without the zeroize call; whole-API scans "
@@ -1992,6 +2104,17 @@ class C20(MiscProp):
             if k.count(0) < 4:
                 return k
 
+    def xor_zero_key(self, ctx):
+        """a key whose 32 bytes XOR to zero (looks "already wiped" to a checksum-style shortcut)"""
+        while True:
+            k = ctx.rbytes(31)
+            x = 0
+            for b in k:
+                x ^= b
+            k += bytes([x])
+            if k.count(0) < 4:
+                return k
+
     def histories(self, ctx):
         rng = ctx.rng
         k = 3 if ctx.thorough() else 2
@@ -2006,6 +2129,21 @@ class C20(MiscProp):
                 else:
                     first, stream = "%s:%s" % (ctor, key.hex()), "none"
                 hs.append(("interleave/%s/allocs<=%d" % (ctor, k), stream, [first] + seq, key if ctor != "ng-os" else None))
+        # keys whose bytes XOR to zero, every constructor, all short interleavings (always present, not left to chance)
+        for ctor in ("np", "nk", "ng"):
+            for seq in interleavings(2, 1):
+                key = self.xor_zero_key(ctx)
+                if ctor == "ng":
+                    first, stream = "ng", key
+                else:
+                    first, stream = "%s:%s" % (ctor, key.hex()), "none"
+                hs.append(("xor-zero-key/%s" % ctor, stream, [first] + seq, key))
+        # the survivors are released by UNWINDING: a closure owning them panics (x), or the library itself panics (xl)
+        for (gen, stream, toks, keys) in list(hs):
+            if not gen.startswith("interleave/") or (gen.startswith("interleave/ng-os") and len(toks) > 3):
+                continue
+            hs.append((gen.replace("interleave/", "unwind/x/"), stream, toks + ["x"], keys))
+            hs.append((gen.replace("interleave/", "unwind/xl/"), stream, toks + ["xl"], keys))
         # two DIFFERENT keys of one kind: clone_from replaces a live key by another one
         two = interleavings(2, 2)
         if ctx.thorough():
@@ -2022,6 +2160,8 @@ class C20(MiscProp):
                     else:
                         heads.append("%s:%s" % (c, kk.hex()))
                 hs.append(("interleave2/%s+%s" % (c1, c2), stream if stream else "none", heads + seq, [k1, k2]))
+                if len(hs) % 3 == 0:
+                    hs.append(("unwind2/%s+%s" % (c1, c2), stream if stream else "none", heads + seq + [rng.choice(["x", "xl"])], [k1, k2]))
         for _ in range(1500 if ctx.thorough() else 250):
             n = rng.randrange(1, 13)
             toks, kinds, stream = [], [], b""
@@ -2049,6 +2189,8 @@ class C20(MiscProp):
                     i = rng.randrange(len(kinds))
                     toks.append("d%d" % i)
                     kinds.pop(i)
+            if rng.random() < 0.3:
+                toks.append(rng.choice(["x", "xl"]))
             hs.append(("random/len=%d" % n, stream if stream else "none", toks, keys))
         hs.append(("empty", "none", [], []))
         return hs
@@ -2094,6 +2236,8 @@ class C20(MiscProp):
             for t in toks:
                 if t[0] == "f":
                     self.count(ctx, "clone_from-ops/" + prof)
+                elif t in ("x", "xl"):
+                    self.count(ctx, "released-by-unwinding(%s)/%s" % (t, prof))
             if not self.check(ctx, r.get("outcome") == "ok" and "overflow" not in r, inp, "the history runs", r["raw"][:300]):
                 continue
             first, second = parse_freed(r.get("freed", "-"))
@@ -2138,6 +2282,10 @@ class C20(MiscProp):
             for which in ("noise_enc", "key_enc", "key_dec"):
                 bodies.append("z_api %s %s" % (which, sk.hex()))
                 meta.append((which, "sk"))
+        sk = self.xor_zero_key(ctx)
+        for which in ("noise_enc", "key_enc", "key_dec"):
+            bodies.append("z_api %s %s" % (which, sk.hex()))
+            meta.append((which, "sk"))
         sk = self.key(ctx)
         for which in ("noise_enc", "key_enc", "key_dec"):
             for pat, nm in (("11" * 32, "ephemeral"), ("22" * 32, "payload")):
